@@ -115,7 +115,9 @@ def sourceHashes : List (String × String) :=
    ("getWrapper", "1311018b7c7efb25"),
    ("cfg.go case selectorExpr", "5240a4a7eee28842"),
    ("cfg.go pre-order case switchStmt, typeSwitch", "773e4a50ec016090"),
-   ("cfg.go post-order case switchStmt", "93061192f5364e43"),
+   -- 64eb664 (round 6): the extra wiring of the list expressions is under `n.kind == switchStmt`; the type-switch
+   -- clauses (kind typeSwitch, the only ones C05 models) are wired as before
+   ("cfg.go post-order case switchStmt", "46d028998950625e"),
    ("cfg.go post-order case typeSwitch", "3c67baf823d5a872"),
    ("genFunctionWrapper receiver binding", "0eced356b3dccc81")]
 
